@@ -143,6 +143,9 @@ def main():
         det = {}
         for c in checks:
             rc, out = sh(f"./check {c} quick", cwd=st, env=env, timeout=3600)
+            if rc == 2:
+                # machinery failure (build hiccup under load): once more before recording it
+                rc, out = sh(f"./check {c} quick", cwd=st, env=env, timeout=3600)
             sigs = [l.strip() for l in out.splitlines() if l.startswith("  ") and ": " in l][:3]
             det[c] = {"exit": rc, "first": sigs[:1]}
         res["checks"] = det
